@@ -27,9 +27,9 @@ from fractions import Fraction
 import numpy as np
 
 PROP = 'C08'
-TARGETS = ['T9a', 'T9b', 'T9c', 'T9d', 'T9e', 'T9f', 'T9g', 'T9h', 'T9i', 'T9j', 'T9k', 'T9l', 'T10a', 'T10b', 'T10c', 'T10d']
+TARGETS = ['T9a', 'T9b', 'T9c', 'T9d', 'T9e', 'T9f', 'T9g', 'T9h', 'T9i', 'T9j', 'T9k', 'T9l', 'T9m', 'T9n', 'T10a', 'T10b', 'T10c', 'T10d']
 LEAN_MODULES = ['HdVerif.Props.C08']
-MODEL_MODULES = ['HdVerif.Model.Volume']
+MODEL_MODULES = ['HdVerif.Model.Volume', 'HdVerif.Model.VolumeMore']
 NAMESPACE = 'HdVerif.C08'
 DRIVER = 'Drivers/C08.lean'
 RULE = ('one case = one history step (operation with arguments) applied to a real Volume and its VolumeGeometry twin; '
@@ -139,6 +139,7 @@ def gen_volume_spec(ctx, r, idx):
         'dtype': r.choice(['int64', 'int64', 'int32', 'float64', 'int64big']),
         'coord': 'PATIENT' if r.random() < 0.88 else 'SLIDE',
         'for_uid': r.choice([None, '1.2.826.0.1.3680043.8.498.1']),
+        'layout': r.choice(['C', 'C', 'F', 'transposed', 'strided', 'negstride', 'readonly']),
     }
 
 
@@ -178,8 +179,12 @@ def gen_slice(r, n):
 
 def gen_item(r, n):
     if r.random() < 0.3:
-        return {'t': 'int', 'v': r.randint(-n, n - 1) if r.random() < 0.88 else r.choice([n, -n - 1, n + 2])}
-    return {'t': 'slice', 'v': gen_slice(r, n)}
+        it = {'t': 'int', 'v': r.randint(-n, n - 1) if r.random() < 0.88 else r.choice([n, -n - 1, n + 2])}
+    else:
+        it = {'t': 'slice', 'v': gen_slice(r, n)}
+    if r.random() < 0.15:
+        it['sp'] = 'bool' if it['t'] == 'int' else r.choice(['int64', 'int32', 'int8'])
+    return it
 
 
 def _track_item(item, n):
@@ -407,6 +412,7 @@ def build(spec):
         arr = arr + (2 ** 53 + 1)          # not representable in float64: a silent conversion alters them
     else:
         arr = arr.astype(spec['dtype'])
+    arr = _with_layout(arr, spec.get('layout', 'C'))
     aff = np.eye(4)
     for i in range(3):
         for j in range(3):
@@ -421,10 +427,36 @@ def build(spec):
     return v, g
 
 
+def _with_layout(arr, layout):
+    """the same values in another memory layout (guide 3a): Fortran order, a transposed view, a strided view into a larger
+    buffer, a negative-stride view, a read-only array"""
+    if layout == 'F':
+        return np.asfortranarray(arr)
+    if layout == 'transposed':
+        perm = list(range(arr.ndim))[::-1]
+        inv = np.argsort(perm)
+        return np.ascontiguousarray(arr.transpose(perm)).transpose(inv)
+    if layout == 'strided':
+        big = np.zeros((2 * arr.shape[0],) + arr.shape[1:], dtype=arr.dtype)
+        big[::2] = arr
+        return big[::2]
+    if layout == 'negstride':
+        return np.ascontiguousarray(arr[::-1, :, ::-1])[::-1, :, ::-1]
+    if layout == 'readonly':
+        arr = arr.copy()
+        arr.flags.writeable = False
+        return arr
+    return arr
+
+
 def _py_index(idx):
     def item(it):
+        sp = it.get('sp')
         if it['t'] == 'int':
-            return it['v']
+            return bool(it['v']) if sp == 'bool' and it['v'] in (0, 1) else it['v']
+        if sp in ('int64', 'int32', 'int8'):
+            dt = getattr(np, sp)                     # slice components spelled with numpy integers
+            return slice(*[None if x is None else dt(x) for x in it['v']])
         return slice(*it['v'])
     if idx['t'] == 'tuple':
         return tuple(item(i) for i in idx['v'])
@@ -842,6 +874,384 @@ def _parse_fr(s):
     return Fraction(s)
 
 
+
+# ------------------------------------------------------------------------------------------ end-of-history checks
+class _RecordDraws:
+    """records what numpy's global generator hands to the library during one call"""
+
+    def __enter__(self):
+        self.log = []
+        self.o_randint, self.o_perm = np.random.randint, np.random.permutation
+
+        def randint(*a, **k):
+            x = self.o_randint(*a, **k)
+            self.log.append(('randint', [int(t) for t in a], int(x)))
+            return x
+
+        def permutation(x):
+            y = self.o_perm(x)
+            self.log.append(('permutation', [int(t) for t in np.asarray(x).tolist()], [int(t) for t in np.asarray(y).tolist()]))
+            return y
+        np.random.randint, np.random.permutation = randint, permutation
+        return self
+
+    def __exit__(self, *exc):
+        np.random.randint, np.random.permutation = self.o_randint, self.o_perm
+        return False
+
+
+def _geom_req(obj):
+    a = obj.affine
+    return {'affine': [[_frac_str(a[i, j]) for j in range(4)] for i in range(3)], 'shape': [int(x) for x in obj.spatial_shape]}
+
+
+def _random_args(r, shape):
+    """(method, python arguments, model request fields); a share of the arguments is invalid"""
+    kind = r.choice(['crop', 'crop', 'flip', 'permute'])
+    bad = r.random() < 0.15
+    if kind == 'crop':
+        tgt = [r.randint(1, n) for n in shape]
+        if bad:
+            k = r.randrange(3)
+            tgt[k] = r.choice([shape[k] + 1, shape[k] + 3, 0])
+        elif r.random() < 0.12:
+            tgt = r.choice([tgt[:2], tgt + [7], tgt[:1]])     # zip() stops at the shorter sequence: accepted by the source
+        sp = r.choice(['list', 'list', 'tuple', 'int64', 'uint8', 'int32arr'])
+        arg = tgt
+        if sp == 'tuple':
+            arg = tuple(tgt)
+        elif sp == 'int64':
+            arg = [np.int64(x) for x in tgt]
+        elif sp == 'uint8':
+            arg = np.array(tgt, dtype=np.uint8)
+        elif sp == 'int32arr':
+            arg = np.array(tgt, dtype=np.int32)
+        return 'random_spatial_crop', arg, {'kind': 'crop', 'crop': tgt}, sp
+    axes = r.choice([(0, 1, 2), (0, 2), (1, 2), (0, 1), (2, 0), (2, 1, 0), (1, 0, 2), (1, 0)])
+    if bad:
+        axes = r.choice([(0,), (0, 0), (0, 3), (0, 1, 2, 0), (), (-1, 0), (1, 1, 2)])
+    sp = r.choice(['tuple', 'list', 'default'])
+    if sp == 'default':
+        axes = (0, 1, 2)
+    arg = list(axes) if sp == 'list' else tuple(axes)
+    if kind == 'flip':
+        return 'random_flip_spatial', arg, {'kind': 'flip', 'axes': list(axes)}, sp
+    return 'random_permute_spatial_axes', arg, {'kind': 'permute', 'axes': list(axes)}, sp
+
+
+def _call_random(obj, name, arg, sp, seed):
+    np.random.seed(seed)
+    with _RecordDraws() as rec:
+        try:
+            res = getattr(obj, name)() if sp == 'default' else getattr(obj, name)(arg)
+            return res, None, rec.log
+        except Exception as e:  # noqa: BLE001
+            return None, e, rec.log
+
+
+def random_conveniences(ctx, spec, v, g, r, exact, reqs, pending):
+    before = _snapshot(v)
+    for _ in range(2):
+        name, arg, mreq, sp = _random_args(r, list(v.spatial_shape))
+        seed = r.randrange(2 ** 31)
+        case = {'hist': spec['idx'], 'step': 'end', 'op': {'op': name, 'arg': mreq, 'spelling': sp, 'np_seed': seed}}
+        res, err, log = _call_random(v, name, arg, sp, seed)
+        gres, gerr, glog = _call_random(g, name, arg, sp, seed)
+        ctx.case(op=name, outcome='ok' if err is None else type(err).__name__, random_spelling=f'{name}/{sp}',
+                 nontrivial_key=(name, tuple(v.spatial_shape), spec['idx'], json.dumps(mreq, sort_keys=True)) if err is None else None)
+        if (err is None) != (gerr is None) or log != glog:
+            ctx.fail(case, {'what': 'volume and geometry disagree on a random_* call with the same generator state',
+                            'volume': 'ok' if err is None else f'{type(err).__name__}: {err}'[:200],
+                            'geometry': 'ok' if gerr is None else f'{type(gerr).__name__}: {gerr}'[:200]}, site=name + '/geometry')
+        # ---- what must be accepted (documented argument forms)
+        shape = list(v.spatial_shape)
+        if name == 'random_spatial_crop':
+            tgt = mreq['crop']
+            valid = len(tgt) == 3 and all(1 <= c <= n for c, n in zip(tgt, shape))
+        else:
+            ax = mreq['axes']
+            valid = len(ax) in (2, 3) and len(set(ax)) == len(ax) and set(ax) <= {0, 1, 2}
+        if valid and err is not None:
+            ctx.fail(case, {'what': f'{name} refused valid arguments: {type(err).__name__}: {err}'[:300]}, site=name)
+        if not valid and err is None and not (name == 'random_spatial_crop' and len(mreq['crop']) != 3):
+            ctx.fail(case, {'what': f'{name} accepted invalid arguments', 'arg': mreq}, site=name)
+        # ---- the values asked of the generator: randint(0, n - c + 1) per axis, randint(2) per listed axis, permutation(axes)
+        draws = [x[2] for x in log]
+        if err is None:
+            if name == 'random_spatial_crop':
+                want = [[0, n - c + 1] for c, n in zip(mreq['crop'], shape)]
+                if [x[1] for x in log] != want:
+                    ctx.fail(case, {'what': 'random_spatial_crop draws from the wrong range', 'asked': [x[1] for x in log], 'want': want}, site=name)
+            elif name == 'random_flip_spatial':
+                if [x[1] for x in log] != [[2]] * len(mreq['axes']):
+                    ctx.fail(case, {'what': 'random_flip_spatial does not draw one bit per listed axis', 'asked': [x[1] for x in log]}, site=name)
+            else:
+                if len(log) != 1 or log[0][0] != 'permutation' or sorted(log[0][1]) != sorted(mreq['axes']):
+                    ctx.fail(case, {'what': 'random_permute_spatial_axes does not permute `axes`', 'asked': log}, site=name)
+            # ---- the property on the result
+            rop = {'op': {'random_spatial_crop': 'getitem', 'random_flip_spatial': 'flip', 'random_permute_spatial_axes': 'permute'}[name]}
+            oracle_step(ctx, case, v, res, rop, exact, name)
+            if name == 'random_spatial_crop' and list(res.spatial_shape)[:len(mreq['crop'])] != list(mreq['crop'])[:3]:
+                ctx.fail(case, {'what': 'random_spatial_crop: result does not have the requested shape',
+                                'got': list(res.spatial_shape), 'want': mreq['crop']}, site=name)
+            if gerr is None:
+                same = np.array_equal(gres.affine, res.affine) if exact else np.allclose(gres.affine, res.affine, rtol=2.0 ** -40, atol=2.0 ** -40)
+                if tuple(gres.spatial_shape) != tuple(res.spatial_shape) or not same:
+                    ctx.fail(case, {'what': 'geometry-only object did not undergo the same change (random_*)'}, site=name + '/geometry')
+        # ---- the model with the recorded draws
+        m = dict(_geom_req(v))
+        m.update(mreq)
+        if mreq['kind'] == 'permute':
+            m['drawn'] = log[0][2] if log and log[0][0] == 'permutation' else list(mreq['axes'])
+        else:
+            m['draws'] = draws
+        reqs.append(('randomOp', m))
+        pending.append({'extra': 'random', 'case': case, 'exact': exact,
+                        'impl': {'err': _err_kind(err)} if err is not None else {'ok': observe_geom(res)}})
+    if _snapshot(v) != before:
+        ctx.fail({'hist': spec['idx'], 'step': 'end'}, {'what': 'a random_* method modified its input'}, site='random')
+    # a long axis (beyond the range of the narrow numpy integer types) with every spelling of the requested shape
+    if r.random() < 0.2:
+        from highdicom.volume import VolumeGeometry
+        big = VolumeGeometry(g.affine, [r.choice([256, 300, 70000]), int(g.spatial_shape[1]), int(g.spatial_shape[2])],
+                             str(g.coordinate_system.value))
+        tgt = [r.randint(1, 200), r.randint(1, int(g.spatial_shape[1])), r.randint(1, int(g.spatial_shape[2]))]
+        dt = r.choice(['uint8', 'int16', 'uint16', 'int64'])
+        arg = np.array(tgt, dtype=getattr(np, dt)) if r.random() < 0.5 else [getattr(np, dt)(x) for x in tgt]
+        case = {'hist': spec['idx'], 'step': 'end', 'op': {'op': 'random_spatial_crop', 'long_axis': int(big.spatial_shape[0]),
+                                                            'crop': tgt, 'dtype': dt}}
+        ctx.case(op='random_spatial_crop/long_axis', outcome='ok', random_spelling=f'random_spatial_crop/long/{dt}')
+        try:
+            res = big.random_spatial_crop(arg)
+            if [int(x) for x in res.spatial_shape] != tgt:
+                ctx.fail(case, {'what': 'random_spatial_crop: result does not have the requested shape', 'got': list(res.spatial_shape)},
+                         site='random_spatial_crop')
+        except Exception as e:  # noqa: BLE001
+            ctx.fail(case, {'what': f'random_spatial_crop refused valid arguments: {type(e).__name__}: {e}'[:300]},
+                     site='random_spatial_crop')
+
+
+ACCESSORS = ['position', 'spacing', 'pixel_spacing', 'spacing_between_slices', 'direction_cosines', 'direction',
+             'spacing_vectors', 'unit_vectors', 'voxel_volume', 'physical_extent', 'physical_volume', 'center_indices',
+             'nearest_center_indices', 'affine']
+
+
+def _flat(x):
+    if isinstance(x, np.ndarray):
+        return [y for row in x.tolist() for y in _flat(row)] if x.ndim > 0 else [x.item()]
+    if isinstance(x, (list, tuple)):
+        return [y for el in x for y in _flat(el)]
+    return [x]
+
+
+def accessors_check(ctx, spec, obj, who, exact, reqs, pending):
+    """Oracle: every accessor recomputed from `affine` and `spatial_shape` by independent numpy; recomposition
+    position + direction @ (spacing * index) = map_indices_to_reference(index); model: the regenerated accessor expressions."""
+    case = {'hist': spec['idx'], 'step': 'end', 'op': {'op': 'accessors', 'on': who}}
+    site = 'accessors'
+    a = obj.affine
+    shp = [int(x) for x in obj.spatial_shape]
+    cols = a[:3, :3]
+    norms = np.sqrt((cols * cols).sum(axis=0))
+    unit = cols / norms
+    got = {}
+    for name in ACCESSORS:
+        val = getattr(obj, name)
+        got[name] = _flat(val() if callable(val) and name in ('spacing_vectors', 'unit_vectors') else val)
+    got['affine'] = got['affine'][:12]
+    want = {
+        'position': a[:3, 3].tolist(), 'spacing': norms.tolist(), 'pixel_spacing': [norms[1], norms[2]],
+        'spacing_between_slices': [norms[0]], 'direction_cosines': unit[:, 2].tolist() + unit[:, 1].tolist(),
+        'direction': unit.reshape(-1).tolist(), 'spacing_vectors': cols.T.reshape(-1).tolist(),
+        'unit_vectors': unit.T.reshape(-1).tolist(), 'voxel_volume': [float(np.prod(norms))],
+        'physical_extent': [n * d for n, d in zip(shp, norms.tolist())],
+        'physical_volume': [float(np.prod(norms)) * float(np.prod(shp))],
+        'center_indices': [(n - 1) / 2 for n in shp], 'nearest_center_indices': [(n - 1) // 2 for n in shp],
+        'affine': a[:3].reshape(-1).tolist(),
+    }
+    for name in ACCESSORS:
+        g_, w_ = np.asarray(got[name], dtype=np.float64), np.asarray(want[name], dtype=np.float64)
+        if g_.shape != w_.shape or not np.allclose(g_, w_, rtol=2.0 ** -45, atol=2.0 ** -45):
+            ctx.fail(case, {'what': f'accessor {name} is not what the affine / shape say', 'got': got[name], 'want': want[name]}, site=site)
+    # recomposition and centre
+    idx = np.array([[0, 0, 0], [1, 2, 3], [shp[0] - 1, shp[1] - 1, shp[2] - 1], [-2, 5, 1]])
+    rec = np.asarray(obj.position) + (idx * np.asarray(obj.spacing)) @ np.asarray(obj.direction).T
+    ref = obj.map_indices_to_reference(idx)
+    if not np.allclose(rec, ref, rtol=2.0 ** -40, atol=2.0 ** -36):
+        ctx.fail(case, {'what': 'position + direction @ (spacing * index) differs from map_indices_to_reference'}, site=site)
+    cen = obj.map_indices_to_reference(np.array([obj.center_indices]))[0]
+    mid = (obj.map_indices_to_reference(np.array([[0, 0, 0]]))[0] + ref[2]) / 2
+    if not (np.allclose(np.asarray(obj.center_position), cen, rtol=2.0 ** -40, atol=2.0 ** -36)
+            and np.allclose(cen, mid, rtol=2.0 ** -40, atol=2.0 ** -36)):
+        ctx.fail(case, {'what': 'center_position is not the midpoint of the first and the last voxel'}, site=site)
+    det = float(np.linalg.det(cols))
+    if (obj.handedness.value == 'LEFT_HANDED') != (det < 0):
+        ctx.fail(case, {'what': 'handedness does not agree with the sign of the determinant', 'det': det}, site=site)
+    nc = got['nearest_center_indices']
+    if any(not (0 <= k < n) for k, n in zip(nc, shp)):
+        ctx.fail(case, {'what': 'nearest_center_indices is not a voxel', 'got': nc, 'shape': shp}, site=site)
+    ctx.case(op='accessors', outcome='ok', nontrivial_key=('accessors', who, spec['idx']), accessor_on=who)
+    reqs.append(('accessors', _geom_req(obj)))
+    pending.append({'extra': 'accessors', 'case': case, 'exact': exact,
+                    'impl': {k: ([int(x) for x in v_] if k == 'nearest_center_indices' else [_frac_str(x) for x in v_])
+                             for k, v_ in got.items()},
+                    'left_handed': obj.handedness.value == 'LEFT_HANDED'})
+
+
+def _same_volume(a, b, exact):
+    same_aff = np.array_equal(a.affine, b.affine) if exact else np.allclose(a.affine, b.affine, rtol=2.0 ** -40, atol=2.0 ** -36)
+    return (tuple(a.spatial_shape) == tuple(b.spatial_shape) and same_aff and a.array.shape == b.array.shape
+            and a.array.dtype == b.array.dtype and np.array_equal(a.array, b.array) and _channels_obs(a) == _channels_obs(b))
+
+
+def inverse_pairs(ctx, spec, v, g, r, exact):
+    """Oracle only: an operation followed by its inverse gives the volume back (shape, affine, array, channels); the
+    geometry-only object likewise."""
+    n = list(v.spatial_shape)
+    kind = r.choice(['flip', 'permute', 'swap', 'pad_crop', 'pad_to_crop_to', 'orientation', 'pad_or_crop_back', 'handedness'])
+    case = {'hist': spec['idx'], 'step': 'end', 'op': {'op': 'inverse_pair', 'kind': kind}}
+    mode = r.choice(MODES)
+    try:
+        if kind == 'flip':
+            axes = r.sample([0, 1, 2], r.randint(1, 3))
+            case['op']['axes'] = axes
+            f = lambda o: o.flip_spatial(axes).flip_spatial(list(reversed(axes)))  # noqa: E731
+        elif kind == 'permute':
+            p = [0, 1, 2]
+            r.shuffle(p)
+            inv = [p.index(k) for k in range(3)]
+            case['op']['indices'] = p
+            f = lambda o: o.permute_spatial_axes(p).permute_spatial_axes(inv)  # noqa: E731
+        elif kind == 'swap':
+            a, b = r.sample([0, 1, 2], 2)
+            case['op']['axes'] = [a, b]
+            f = lambda o: o.swap_spatial_axes(a, b).swap_spatial_axes(b, a)  # noqa: E731
+        elif kind == 'pad_crop':
+            w = [[r.randint(0, 3), r.randint(0, 3)] for _ in range(3)]
+            case['op']['width'] = w
+            f = lambda o: o.pad(w, **({'mode': mode} if hasattr(o, 'array') else {}))[  # noqa: E731
+                w[0][0]:w[0][0] + n[0], w[1][0]:w[1][0] + n[1], w[2][0]:w[2][0] + n[2]]
+        elif kind == 'pad_to_crop_to':
+            tgt = [x + r.choice([0, 1, 2, 3, 4]) for x in n]
+            case['op']['shape'] = tgt
+            f = lambda o: o.pad_to_spatial_shape(tgt, **({'mode': mode} if hasattr(o, 'array') else {})).crop_to_spatial_shape(n)  # noqa: E731
+        elif kind == 'pad_or_crop_back':
+            tgt = [x + r.choice([0, 1, 2, 3]) for x in n]
+            case['op']['shape'] = tgt
+            f = lambda o: o.pad_or_crop_to_spatial_shape(tgt).pad_or_crop_to_spatial_shape(n)  # noqa: E731
+        elif kind == 'handedness':
+            other = 'LEFT_HANDED' if v.handedness.value == 'RIGHT_HANDED' else 'RIGHT_HANDED'
+            ax = r.randrange(3)
+            case['op']['flip_axis'] = ax
+            f = lambda o: o.ensure_handedness(other, flip_axis=ax).ensure_handedness(v.handedness.value, flip_axis=ax)  # noqa: E731
+        else:
+            if spec['coord'] != 'PATIENT' or not exact:
+                return
+            cur = ''.join(x.value for x in v.get_closest_patient_orientation())
+            o = r.choice(ORIENTATIONS)
+            case['op']['via'] = o
+            f = lambda o_: o_.to_patient_orientation(o).to_patient_orientation(cur)  # noqa: E731
+        back = f(v)
+        gback = f(g)
+    except Exception as e:  # noqa: BLE001
+        ctx.fail(case, {'what': f'an operation followed by its inverse was refused: {type(e).__name__}: {e}'[:300]}, site='inverse_pair')
+        return
+    ctx.case(op='inverse_pair/' + kind, outcome='ok', nontrivial_key=('inverse', kind, tuple(n), spec['idx']))
+    if not _same_volume(v, back, exact):
+        ctx.fail(case, {'what': 'an operation followed by its inverse does not give the volume back',
+                        'shape': [list(v.array.shape), list(back.array.shape)],
+                        'affine': [v.affine.tolist(), back.affine.tolist()]}, site='inverse_pair')
+    same_aff = np.array_equal(g.affine, gback.affine) if exact else np.allclose(g.affine, gback.affine, rtol=2.0 ** -40, atol=2.0 ** -36)
+    if tuple(g.spatial_shape) != tuple(gback.spatial_shape) or not same_aff:
+        ctx.fail(case, {'what': 'an operation followed by its inverse does not give the geometry back'}, site='inverse_pair/geometry')
+
+
+def foreign_index_items(ctx, spec, v, g, r):
+    """Index items that are neither int nor slice (None, Ellipsis, numpy integer, float, list): refused with TypeError by
+    volume and geometry alike, nothing changes (the source only knows int and slice; bool is an int)."""
+    n = list(v.spatial_shape)
+    item = r.choice([None, Ellipsis, np.int64(0), 1.0, [0], np.uint8(0), 'a'])
+    form = r.choice(['bare', 'first', 'second', 'last'])
+    if form == 'bare':
+        idx = item
+    elif form == 'first':
+        idx = (item, slice(None))
+    elif form == 'second':
+        idx = (slice(None), item)
+    else:
+        idx = (0, slice(0, 1), item)
+    case = {'hist': spec['idx'], 'step': 'end', 'op': {'op': 'getitem_foreign', 'item': repr(item), 'form': form}}
+    before = _snapshot(v)
+    outs = []
+    for o in (v, g):
+        try:
+            o[idx]
+            outs.append('ok')
+        except Exception as e:  # noqa: BLE001
+            outs.append(type(e).__name__)
+    ctx.case(op='getitem_foreign', outcome=outs[0], foreign_item=type(item).__name__ + '/' + form)
+    if outs[0] != outs[1]:
+        ctx.fail(case, {'what': 'volume and geometry disagree on an index item of a foreign type', 'volume': outs[0], 'geometry': outs[1]},
+                 site='getitem/geometry')
+    if outs[0] == 'ok':
+        ctx.fail(case, {'what': 'an index item that is neither int nor slice was accepted', 'shape': n}, site='getitem')
+    if _snapshot(v) != before:
+        ctx.fail(case, {'what': 'a refused index modified the volume'}, site='getitem')
+
+
+def end_of_history(ctx, spec, v, g, r, exact, reqs, pending):
+    u = r.random()
+    if u < 0.5:
+        random_conveniences(ctx, spec, v, g, r, exact, reqs, pending)
+    if r.random() < 0.5:
+        accessors_check(ctx, spec, v, 'volume', exact, reqs, pending)
+    elif r.random() < 0.3:
+        accessors_check(ctx, spec, g, 'geometry', exact, reqs, pending)
+    if r.random() < 0.6:
+        inverse_pairs(ctx, spec, v, g, r, exact)
+    if r.random() < 0.15:
+        foreign_index_items(ctx, spec, v, g, r)
+
+
+def compare_extra(ctx, pend, ans):
+    case = pend['case']
+    if 'proto_err' in ans:
+        ctx.disagree('L0', case, 'n/a', ans, 'model protocol error')
+        return
+    if pend['extra'] == 'random':
+        impl = pend['impl']
+        ctx.hist('model_random', 'refused' if 'err' in impl else 'accepted')
+        if ('err' in impl) != ('err' in ans):
+            ctx.disagree('L0', case, impl if 'err' in impl else {'ok': impl['ok']['shape']}, ans, 'ok-vs-error (random_*)')
+            return
+        if 'ok' in impl:
+            io, mo = impl['ok'], ans['ok']
+            if io['shape'] != mo['shape'] or any(not _close(io['affine'][i][j], mo['affine'][i][j], pend['exact'])
+                                                 for i in range(3) for j in range(4)):
+                ctx.disagree('L0', case, io, mo, 'geometry after random_*')
+        return
+    mo = ans.get('ok')
+    if mo is None:
+        ctx.disagree('L0', case, 'accessors', ans, 'model refuses the geometry')
+        return
+    impl = pend['impl']
+    if mo['left_handed'] != pend['left_handed']:
+        ctx.disagree('L0', case, pend['left_handed'], mo['left_handed'], 'handedness')
+    rootless = ['position', 'spacing_vectors', 'affine', 'center_indices']
+    names = ACCESSORS if mo['exact_sqrt'] else rootless + ['nearest_center_indices']
+    ctx.hist('accessor_model', 'all (exact square roots)' if mo['exact_sqrt'] else 'root-free accessors only')
+    for name in names:
+        a, b = impl[name], mo[name]
+        if name == 'nearest_center_indices':
+            if a != b:
+                ctx.disagree('L0', case, a, b, 'accessor nearest_center_indices')
+            continue
+        tight = pend['exact'] or name in rootless
+        if len(a) != len(b) or any(not _close(x, y, tight) for x, y in zip(a, b)):
+            ctx.disagree('L0', case, {name: a}, {name: b}, f'accessor {name}')
+            return
+
+
 # ------------------------------------------------------------------------------------------ one history
 def gen_case(ctx, idx):
     r = ctx.rng('hist', idx)
@@ -944,7 +1354,10 @@ def run_history(ctx, spec, length, r, reqs, pending):
                  op=op['op'], outcome='ok' if err is None else type(err).__name__, form=f"{op['op']}/{form}" if form else None,
                  mode=(op.get('mode') or '').upper() or None, channel_dims=len(cshape), orientation=oclass, handedness=hand,
                  shape_in='x'.join(map(str, sorted(v.spatial_shape))), coord=spec['coord'],
-                 per_channel=op.get('per_channel'))
+                 per_channel=op.get('per_channel'), layout=spec.get('layout', 'C'),
+                 index_spelling=('/'.join(sorted({it.get('sp', 'py') for it in (op['index']['v'] if op['index']['t'] == 'tuple'
+                                                                                 else [op['index']])}))
+                                 if op['op'] == 'getitem' else None))
         if op['op'] == 'copy' and err is not None:
             ctx.fail(case, {'what': f'copy() refused: {type(err).__name__}: {err}'[:300]}, site='copy')
         # ---- an index that selects at least one voxel per axis (CPython range) within the documented bounds is accepted
@@ -1039,30 +1452,15 @@ def run_history(ctx, spec, length, r, reqs, pending):
         impl_obs[-1]['case'] = case
         if err is None and spatial and gerr is None:
             impl_obs[-1]['geom'] = observe_geom(g2)
-    # the randomised conveniences (compositions of the operations above with numpy-drawn arguments): oracle only
-    if r is not None and r.random() < 0.5:
-        np.random.seed(r.randrange(2 ** 31))
-        before = _snapshot(v)
-        for name, call, kind in (
-                ('random_flip_spatial', lambda: v.random_flip_spatial(r.choice([(0, 1, 2), (0, 2), (1, 2), (0, 1)])), 'flip'),
-                ('random_permute_spatial_axes', lambda: v.random_permute_spatial_axes(r.choice([(0, 1, 2), (0, 2), (1, 2), (0, 1)])), 'permute'),
-                ('random_spatial_crop', None, 'crop_to')):
-            case = {'hist': spec['idx'], 'step': 'end', 'op': {'op': name}}
-            try:
-                if name == 'random_spatial_crop':
-                    tgt = [r.randint(1, n) for n in v.spatial_shape]
-                    res = v.random_spatial_crop(tgt)
-                    rop = {'op': 'crop_to', 'shape': tgt}
-                else:
-                    res = call()
-                    rop = {'op': kind}
-            except Exception as e:  # noqa: BLE001
-                ctx.fail(case, {'what': f'{name} refused valid arguments: {type(e).__name__}: {e}'[:300]}, site=name)
-                continue
-            ctx.case(op=name, outcome='ok', nontrivial_key=(name, tuple(v.spatial_shape), spec['idx']))
-            oracle_step(ctx, case, v, res, rop, exact, name)
-        if _snapshot(v) != before:
-            ctx.fail({'hist': spec['idx'], 'step': 'end'}, {'what': 'a random_* method modified its input'}, site='random')
+    # end of the history: randomised conveniences (draws recorded, compared with the model), accessors, inverse pairs,
+    # index items of other types
+    if r is not None:
+        try:
+            end_of_history(ctx, spec, v, g, r, exact, reqs, pending)
+        except Exception:  # noqa: BLE001
+            import traceback
+            ctx.fail({'hist': spec['idx'], 'step': 'end'}, {'what': 'harness could not run the end-of-history checks',
+                                                            'error': traceback.format_exc()[-800:]}, site='harness')
     if _snapshot(v0) != snap0:
         ctx.fail({'hist': spec['idx'], 'step': 'end'}, {'what': 'the original volume changed during the history'}, site='original')
     # model request
@@ -1395,6 +1793,8 @@ def run(ctx):
                 ctx.disagree(layer, case, impl, ans, 'ok-vs-error')
             elif 'ok' in impl and impl['ok'] != ans['ok']:
                 ctx.disagree(layer, case, impl, ans, 'value')
+        elif 'extra' in pend:
+            compare_extra(ctx, pend, ans)
         else:
             compare_history(ctx, pend, ans)
 
